@@ -24,7 +24,7 @@ Definition bump (ld : Q) (ds : list pt) : list pt := match ds with [] => [] | (d
 Fixpoint run_iter (start : Q) (ds : list pt) : list pt * Q :=
   match ds with
   | [] => ([], start)
-  | (d, v) :: r => let t := start + d in let '(l, e) := run_iter t r in ((t, v) :: l, e)
+  | (d, v) :: r => let t := Qred (start + d) in let '(l, e) := run_iter t r in ((t, v) :: l, e)   (* Qred: same rational, kept small *)
   end.
 Fixpoint run_iters (period : Q) (pts : list pt) (first : bool) (n : nat) (start : Q) : list (list pt) :=
   match n with
@@ -57,7 +57,7 @@ Fixpoint finish_date (peak cur from : Q) (evs : list pt) (amount : Q) : option Q
   | (d, v) :: r =>
       let cap := peak * cur * (d - from) in
       if Qlt_bool 0 (peak * cur) && Qle_bool amount cap then Some (from + amount / (peak * cur))
-      else finish_date peak v d r (amount - cap)
+      else finish_date peak v d r (Qred (amount - cap))
   end.
 
 (** executable: period_n period_d npts {date_n date_d val_n val_d}* iterations
